@@ -1,3 +1,20 @@
 import SV.Driver.LazyReadStep
-/- svdriver_c15: line protocol of the C15 model (shared with C02, see SV/Driver/LazyReadStep.lean). -/
-def main : IO Unit := SV.Driver.loop SV.Driver.LazyRead.step {}
+import SV.Model.Waiter
+/- svdriver_c15: line protocol of the C15 model (shared with C02, see SV/Driver/LazyReadStep.lean),
+   plus the timed waiter op:
+     waitstag <T> <doneAt|-> <a0> <a1> ...   ->  ret <r0> <r1> ...   (SV.Waiter.returnTime per caller) -/
+namespace SV.Driver.C15
+open SV.Driver SV.Driver.LazyRead
+
+def step (s : St) : List String → St × String
+  | "waitstag" :: t :: d :: as =>
+    match parseNat? t, (if d = "-" then some none else (parseNat? d).map some), as.mapM parseNat? with
+    | some T, some doneAt, some arrivals =>
+      if arrivals.isEmpty then (s, "bad-op") else
+      (s, "ret " ++ " ".intercalate (arrivals.map fun a => toString (SV.Waiter.returnTime T doneAt arrivals a)))
+    | _, _, _ => (s, "bad-op")
+  | ws => SV.Driver.LazyRead.step s ws
+
+end SV.Driver.C15
+
+def main : IO Unit := SV.Driver.loop SV.Driver.C15.step {}
